@@ -56,72 +56,94 @@ def scalar_el(cv, v):
 
 
 def check_extract(run, S, name, spec, kw):
+    """Euler-from-quaternion, decided leaf by leaf whatever the control flow (if-chain, match on partial_cmp, early
+    returns): the conditions of a path are read as relations between T = qx qz + qy qw and +-k|q|^2; the path is the
+    +lock case iff it established T > k|q|^2, the -lock case iff it established not that and T < -k|q|^2, the exact case
+    iff it established neither; the value returned must be the formula of that case."""
     r = run.use_root(S, name)
     if r is None:
         run.ob('%s:%s:present' % (PROP, name), False, rule='root-present', expected='root', found='missing')
         return
     where = r.get('span')
     ls = ret_leaves(r['out'])
-    if any(l['k'] != 'ret' for g, l in ls) or len(ls) != 3:
-        run.ob('%s:%s:shape' % (PROP, name), False, rule='K5 outcome shape', expected='three Return leaves (two gimbal-lock, one exact)', found=[l['k'] for g, l in ls], where=where)
+    if any(l['k'] != 'ret' for g, l in ls) or not (3 <= len(ls) <= 64):
+        run.ob('%s:%s:shape' % (PROP, name), False, rule='K5 outcome shape', expected='Return leaves only (two gimbal-lock cases, one exact)', found=[l['k'] for g, l in ls][:8], where=where)
         return
-    run.ob('%s:%s:shape' % (PROP, name), True, rule='K5 outcome shape', expected='three Return leaves', found='3', nontrivial=False)
+    run.ob('%s:%s:shape' % (PROP, name), True, rule='K5 outcome shape', expected='Return leaves', found=len(ls), nontrivial=False)
     cv = Conv(S)
     q = sq('a0')
     qw, (qx, qy, qz) = q[0], q[1]
     T = qx * qz + qy * qw
     U = specs.qnorm2(q)
     K499 = Fr(0.499)
+    mono = tuple(sorted(((A.CTX.atom('a0.v.x'), 1), (A.CTX.atom('a0.v.z'), 1))))
 
-    def guard_k(tid):
-        """guard must be  T > K*U (returns ('pos', K)) or T < -K*U (returns ('neg', K)); else None"""
-        t = S.terms[tid]
-        if t[0] != 'a' or t[1] not in ('gt', 'lt', 'ge', 'le') or len(t[2]) != 2:
-            return None
-        lhs, rhs = cv.el(t[2][0]), cv.el(t[2][1])
+    def classify(lhs, rhs):
+        """lhs - rhs = alpha (T - sigma k U): (sigma, k, alpha > 0) or None"""
         d = lhs - rhs
-        op = t[1]
-        if op in ('lt', 'le'):
-            d = -d
-        # d > 0 is the condition.  d must be alpha*(T - K*U) [pos] or alpha*(-T - K*U) [neg], alpha > 0
-        mono = ((A.CTX.atom('a0.v.x'), 1), (A.CTX.atom('a0.v.z'), 1))
-        mono = tuple(sorted(mono))
         alpha = d.t.get(mono)
         if alpha is None or alpha == 0:
             return None
-        side = 'pos' if alpha > 0 else 'neg'
-        dn = d * El.c(1 / abs(alpha))
-        base = T if side == 'pos' else -T
-        rest = base - dn     # should be K*U
-        # K = coefficient of qw^2
+        dn = d * El.c(1 / alpha)
+        rest = T - dn                       # should be sigma k U
         kk = rest.t.get(((A.CTX.atom('a0.s'), 2),))
-        if kk is None:
+        if kk is None or kk == 0 or not A.eq(rest, U * El.c(kk)):
             return None
-        if not A.eq(rest, U * El.c(kk)):
+        return (1 if kk > 0 else -1), abs(kk), alpha > 0
+    FLIP = {'lt': 'gt', 'gt': 'lt', 'le': 'ge', 'ge': 'le', 'eq': 'eq', 'un': 'un'}
+    NEG = {'gt': ('le', 'un'), 'ge': ('lt', 'un'), 'lt': ('ge', 'un'), 'le': ('gt', 'un')}
+
+    def relation(kind, tid, want):
+        """(sigma, k, set of possible relations between T and sigma k U established by this guard) or None"""
+        t = S.terms[tid]
+        if t[0] != 'a' or len(t[2]) != 2:
             return None
-        return side, kk
+        c = classify(cv.el(t[2][0]), cv.el(t[2][1]))
+        if c is None:
+            return None
+        sigma, kk, same = c
+        if kind == 'switch' and t[1] == 'cmp' and want in (0, 1, 2, 3):
+            rels = ({0: 'lt', 1: 'eq', 2: 'gt', 3: 'un'}[want],)
+        elif kind == 'ite' and t[1] in NEG:
+            rels = (t[1],) if want else NEG[t[1]]
+        else:
+            return None
+        if not same:
+            rels = tuple(FLIP[x] for x in rels)
+        return sigma, kk, set(rels)
     kinds = {}
     for li, (guards, leaf) in enumerate(ls):
         val = leaf['v']['a']
         x, y, z = val[0], val[1], val[2]
         key = '%s:%s:leaf%d' % (PROP, name, li)
-        gk = [(guard_k(tid), want) for kind, tid, want in guards if kind == 'ite']
-        if len(gk) != len(guards) or any(g is None for g, w in gk):
+        rels = [relation(kind, tid, want) for kind, tid, want in guards]
+        if any(g is None for g in rels):
             run.ob(key + ':guards', False, rule='K5 guard pass-set', expected='guards compare qx*qz + qy*qw with +-k*|q|^2', found=[S.show(tid)[:120] for kind, tid, want in guards], where=where)
             continue
-        taken = [(g[0], g[1]) for g, w in gk if w]
-        if taken:
-            side, kk = taken[-1]
-            kinds[side] = li
+        for sigma, kk, rs in rels:
             run.ob(key + ':threshold', abs(kk - K499) < Fr(1, 10**9), rule='K13 constant audit', expected='lock threshold k = 0.499 (|sin y| = 2k = 0.998)', found=float(kk), where=where)
-            sign = 1 if side == 'pos' else -1
-            try:
-                xe = scalar_el(cv, x)
-                ye = scalar_el(cv, y)
-            except Exception as ex:
-                xe = ye = None
-            run.ob(key + ':x', xe is not None and A.eq(xe, ZERO), rule='K3', expected='x = 0 inside the gimbal-lock cone', found=xe, where=where)
-            run.ob(key + ':y', ye is not None and A.eq(ye, El.c(TWO_PI / 4 * sign)), rule='K3 + K13', expected='y = %s full_turn/4' % ('+' if sign > 0 else '-'), found=ye, where=where)
+        # what the path established about  T > kU  and  T < -kU
+        pos = neg = None
+        for sigma, kk, rs in rels:
+            if sigma > 0:
+                pos = True if rs == {'gt'} else (False if not (rs & {'gt', 'ge'}) else pos)
+            else:
+                neg = True if rs == {'lt'} else (False if not (rs & {'lt', 'le'}) else neg)
+        if pos and neg:
+            continue                # T > k|q|^2 >= 0 >= -k|q|^2 > T: infeasible
+        # class of the value
+        try:
+            xe, ye = scalar_el(cv, x), scalar_el(cv, y)
+        except Exception:
+            xe = ye = None
+        is_lock = isinstance(xe, El) and isinstance(ye, El) and A.eq(xe, ZERO) and ye.norm().is_const()
+        if is_lock:
+            sign = 1 if ye.norm().const() > 0 else -1
+            expected_here = (pos is True) if sign > 0 else (pos is False and neg is True)
+            run.ob(key + ':lock-guards', expected_here, rule='K5 guard pass-set', expected='the %slock values only where T %s k|q|^2 was established%s' % ('+' if sign > 0 else '-', '>' if sign > 0 else '< -', '' if sign > 0 else ' (and T > k|q|^2 refuted)'),
+                   found='T > k|q|^2: %s, T < -k|q|^2: %s' % (pos, neg), where=where)
+            kinds['pos' if sign > 0 else 'neg'] = li
+            run.ob(key + ':y', A.eq(ye, El.c(TWO_PI / 4 * sign)), rule='K3 + K13', expected='y = %s full_turn/4' % ('+' if sign > 0 else '-'), found=ye, where=where)
             try:
                 ze = scalar_el(cv, z)
             except Exception:
@@ -131,9 +153,7 @@ def check_extract(run, S, name, spec, kw):
                    expected='z = %s2 atan2(qx, qw)' % ('' if sign > 0 else '-'), found=S.showval(z)[:160], where=where)
         else:
             kinds['exact'] = li
-            # both lock guards false
-            sides = sorted(g[0] for g, w in gk)
-            run.ob(key + ':guards', sides == ['neg', 'pos'], rule='K5 guard pass-set', expected='exact leaf reached when neither lock test holds', found=sides, where=where)
+            run.ob(key + ':guards', pos is False and neg is False, rule='K5 guard pass-set', expected='exact values only where neither lock test holds', found='T > k|q|^2: %s, T < -k|q|^2: %s' % (pos, neg), where=where)
             with specs.hyps(specs.unit_quat_hyp('a0')):
                 M = specs.q_matrix(q)
                 ya = fn_args(S, cv, y, 'asin')
